@@ -261,6 +261,31 @@ def callback_threading(ctx, rule="C17.R8"):
         raise AnalysisError(f"{rule}: fewer than 3 contribution step_callback implementations found")
 
 
+def initial_projection_dominates(ctx, rule="C17.R12"):
+    """Every fixed-step solver stores system.q0 as its first step.  system.q0 is what consistent_initial_conditions returns; it is unit-length
+    only if the projection ran on the path taken."""
+    from ..cfg import CFG
+    rep = ctx.rep
+    rel = "cardillo/solver/_base.py"
+    fn = ctx.repo.get(rel, "consistent_initial_conditions")
+    C = f"{rel}:consistent_initial_conditions"
+    cfg = CFG(fn)
+    calls = [n for n in cfg.nodes if n.kind == "stmt" and n.ast is not None and any(isinstance(w, ast.Call) and isinstance(w.func, ast.Attribute) and w.func.attr == "step_callback"
+                                                                                  for w in ast.walk(n.ast)) and not isinstance(n.ast, (ast.FunctionDef, ast.If, ast.For, ast.While))]
+    rets = [n for n in cfg.nodes if n.kind == "stmt" and isinstance(n.ast, ast.Return)]
+    if not rets:
+        raise AnalysisError(f"{C}: no return found")
+    if not calls:
+        rep.bad(rule, C, fn.name, "the initial state is never projected (no call of system.step_callback)", f"{rel}:{fn.lineno}")
+        return
+    for r in rets:
+        if any(cfg.dominates(c, r) for c in calls):
+            rep.ok(rule, C, f"return at line {r.lineno}: the projection of (q0, u0) has run")
+        else:
+            rep.bad(rule, C, r.ast, f"the return at line {r.lineno} can be reached without `{norm_src(calls[0].ast)[:60]}`: on that path (assembly without consistent initial conditions, "
+                    "nu == 0) the initial quaternions are handed back as given, and every fixed-step solver stores them as its first step", f"{rel}:{r.lineno}")
+
+
 def ivp_full_mass_matrix(ctx, rule="C17.R11"):
     """The ODE wrapper DEFINES u_dot (right-hand side of the integrated ODE and reported accelerations) and the multipliers through the
     system's mass matrix.  They satisfy  M u_dot = h + W la  only if M enters whole: as the matrix of a linear solve, as a block of a
@@ -316,6 +341,8 @@ def ivp_full_mass_matrix(ctx, rule="C17.R11"):
 
 def run(ctx):
     rep = ctx.rep
+    rep.rule("C17.R12", "the first stored step is a projected state on EVERY assembly path: in consistent_initial_conditions the call system.step_callback(t0, q0, u0) (quaternion normalisation) dominates every return, the early exits for 'no consistent initial conditions requested' / nu == 0 included", 1)
+    initial_projection_dominates(ctx)
     rep.rule("C17.R11", "ScipyIVP: the system mass matrix enters the definition of u_dot and of the multipliers whole (linear solve, block, product), never through its diagonal or elements", 2)
     ivp_full_mass_matrix(ctx)
     rep.rule("C17.R10", "ScipyIVP: every reported row of u_dot, la_g, la_gamma, la_c is the KKT solve at that output's (t, q, u)", 1)
@@ -635,4 +662,9 @@ NEUTRAL += [
     dict(id="c17-n-r11", canary=True, what="ScipyIVP.la_g_la_gamma_la_c factorises M once (splu) and reuses the factorisation for u_dot", file='cardillo/solver/scipy_ivp.py',
          edits=[('cardillo/solver/scipy_ivp.py', "from scipy.sparse.linalg import spsolve\n", "from scipy.sparse.linalg import spsolve, splu\n"),
                 ('cardillo/solver/scipy_ivp.py', '        u_dot = spsolve(\n            M, h + W_tau @ la_tau + W_c @ la_c + W_g @ la_g + W_gamma @ la_gamma\n        )\n', "        u_dot = splu(M).solve(h + W_tau @ la_tau + W_c @ la_c + W_g @ la_g + W_gamma @ la_gamma)\n")]),
+]
+
+MUTANTS += [
+    dict(id="c17-r12-seed", canary=True, what="[seeded by sub-agent] consistent_initial_conditions: the projection of the initial state moved below the early exit for assemblies without consistent initial conditions", file='cardillo/solver/_base.py',
+         old='    # normalize quaternions etc.\n    q0, u0 = system.step_callback(t0, q0, u0)\n\n    q_dot0 = system.q_dot(t0, q0, u0)\n\n    if (\n        not options.compute_consistent_initial_conditions or system.nu == 0\n    ):  # second case can happen during debugging, when only frames are added to the system\n        return (\n            t0,\n            q0,\n            u0,\n            q_dot0,\n            np.zeros(system.nu),\n            np.zeros(system.nla_g),\n            np.zeros(system.nla_gamma),\n            np.zeros(system.nla_c),\n            np.zeros(system.nla_N),\n            np.zeros(system.nla_F),\n        )\n\n', new='    q_dot0 = system.q_dot(t0, q0, u0)\n\n    if (\n        not options.compute_consistent_initial_conditions or system.nu == 0\n    ):  # second case can happen during debugging, when only frames are added to the system\n        return (\n            t0,\n            q0,\n            u0,\n            q_dot0,\n            np.zeros(system.nu),\n            np.zeros(system.nla_g),\n            np.zeros(system.nla_gamma),\n            np.zeros(system.nla_c),\n            np.zeros(system.nla_N),\n            np.zeros(system.nla_F),\n        )\n\n    # normalize quaternions etc.\n    q0, u0 = system.step_callback(t0, q0, u0)\n    q_dot0 = system.q_dot(t0, q0, u0)\n\n', expect="C17.R12"),
 ]
